@@ -3,7 +3,8 @@
 From Coq Require Import List NArith Arith.
 From DS Require Import Gen.Constants Base.Bytes Base.Word32 Model.Chunker
      Model.PChunker Base.Hash Base.Sched
-     Proofs.RollProofs Proofs.ChunkerSpecProofs Proofs.ChunkerImplProofs Proofs.PChunkerMain Proofs.PChunkerOld Proofs.PChunkerLive.
+     Proofs.RollProofs Proofs.ChunkerSpecProofs Proofs.ChunkerImplProofs Proofs.PChunkerMain Proofs.PChunkerOld Proofs.PChunkerLive
+     Model.PChunkerTrace Proofs.PChunkerTraceProofs.
 Import ListNotations.
 
 (* The incremental hash update of Chunker.Next (rotate, xor out the byte leaving the window
@@ -145,3 +146,16 @@ Theorem C02_pchunk_maximal_run_complete : forall (H : bytes -> id) min max d dat
   k_out (p_c s') = seq_index min max d data \/ Collision H.
 Proof. exact pchunk_maximal_run_complete. Qed.
 Print Assumptions C02_pchunk_maximal_run_complete.
+
+(* THE TIE of the protocol model to make.go is a trace validation: the verif build records the
+   linearized sequence of channel operations of every run of IndexFromFile the harness makes
+   (sends, syncWith receives and misses, skip decisions, close(done), collector receives / moves /
+   stop), and the extracted [replay] follows it on the model step by step.  An accepted trace is
+   an execution of the model, so everything proved for every schedule holds of that run: *)
+Theorem C02_trace_valid_index : forall (H : bytes -> id) min max d data, W <= min -> min <= max -> 0 < max ->
+  forall n evs s', 1 <= n ->
+  replay H min max d data 0 evs (pinit max data n) = inl s' ->
+  k_done (p_c (finish data s')) = true ->
+  k_out (p_c (finish data s')) = seq_index min max d data \/ Collision H.
+Proof. intros H min max d data Hmin Hmax Hpos n evs s'. exact (trace_valid_index H min max d data Hmin Hmax Hpos n evs s'). Qed.
+Print Assumptions C02_trace_valid_index.
